@@ -5,6 +5,7 @@ import (
 	"fmt"
 	"github.com/bilibili/gengine/context"
 	"reflect"
+	"strings"
 )
 
 var TypeMap = map[string]string{
@@ -60,6 +61,55 @@ func (e *Expression) AcceptExpression(expression *Expression) error {
 		return nil
 	}
 	return errors.New("Expression already set twice! ")
+}
+
+//compareInteger compares two integer values (signed or unsigned) over the whole 64-bit range,
+//it returns -1, 0 or 1; isInt is false when one of them is not an integer
+func compareInteger(l, r string, lv, rv reflect.Value) (c int, isInt bool) {
+	lSigned, lUnsigned := strings.HasPrefix(l, "int"), strings.HasPrefix(l, "uint")
+	rSigned, rUnsigned := strings.HasPrefix(r, "int"), strings.HasPrefix(r, "uint")
+	if !(lSigned || lUnsigned) || !(rSigned || rUnsigned) {
+		return 0, false
+	}
+
+	cmpUint := func(a, b uint64) int {
+		if a < b {
+			return -1
+		}
+		if a > b {
+			return 1
+		}
+		return 0
+	}
+
+	if lSigned && rSigned {
+		a, b := lv.Int(), rv.Int()
+		if a < b {
+			return -1, true
+		}
+		if a > b {
+			return 1, true
+		}
+		return 0, true
+	}
+
+	if lUnsigned && rUnsigned {
+		return cmpUint(lv.Uint(), rv.Uint()), true
+	}
+
+	if lSigned {
+		a := lv.Int()
+		if a < 0 {
+			return -1, true
+		}
+		return cmpUint(uint64(a), rv.Uint()), true
+	}
+
+	b := rv.Int()
+	if b < 0 {
+		return 1, true
+	}
+	return cmpUint(lv.Uint(), uint64(b)), true
 }
 
 func (e *Expression) Evaluate(dc *context.DataContext, Vars map[string]reflect.Value) (reflect.Value, error) {
@@ -172,6 +222,27 @@ func (e *Expression) Evaluate(dc *context.DataContext, Vars map[string]reflect.V
 		//data compare
 		if l, ok1 := TypeMap[tlv.Kind().String()]; ok1 {
 			if r, ok2 := TypeMap[trv.Kind().String()]; ok2 {
+				//integers are compared exactly, float64 can't hold every 64-bit integer
+				if c, isInt := compareInteger(l, r, flv, frv); isInt {
+					switch e.ComparisonOperator {
+					case "==":
+						b = reflect.ValueOf(c == 0)
+					case "!=":
+						b = reflect.ValueOf(c != 0)
+					case ">":
+						b = reflect.ValueOf(c > 0)
+					case "<":
+						b = reflect.ValueOf(c < 0)
+					case ">=":
+						b = reflect.ValueOf(c >= 0)
+					case "<=":
+						b = reflect.ValueOf(c <= 0)
+					default:
+						return reflect.ValueOf(nil), errors.New(fmt.Sprintf("line %d, column %d, code: %s, Can't be recognized ComparisonOperator: %s", e.LineNum, e.Column, e.Code, e.ComparisonOperator))
+					}
+					goto LAST
+				}
+
 				var ll float64
 				switch l {
 				case "int", "int8", "int16", "int32", "int64":
